@@ -362,7 +362,7 @@ def enum_big(tier):
 
 
 UNITS = [
-    Unit("primitive", check_primitive, strategy=_cases, quick=1500, thorough=60000,
+    Unit("primitive", check_primitive, essential_min=0.01, strategy=_cases, quick=1500, thorough=60000,
          essential=["corruption=none", "corruption=flip_header", "corruption=trailer_16bit", "corruption=header_truncated",
                     "hdr>=255"], doc="verify_gpg_signature returns <=> reference says valid, for corrupted reference entries"),
     Unit("big_headers", check_primitive, enumerate=enum_big, exhaustive=True, shards_quick=4,
